@@ -129,19 +129,24 @@ class Engine:
 
     def arr_shape(self, st, v):
         s0 = st.heap.rd('sh0', v.t)
-        if v.k[1] == 1:
-            return [s0]
-        return [s0, st.heap.rd('sh1', v.t)]
+        sh = [s0] if v.k[1] == 1 else [s0, st.heap.rd('sh1', v.t)]
+        key = 'shape>=0:%s:%s' % (v.t.sexpr(), st.heap.get('sh0').get_id())
+        if key not in st.ghost:
+            st.ghost[key] = True
+            for s_ in sh:
+                st.pc.append(s_ >= 0)
+        return sh
 
     def arr_data(self, st, v):
         return st.heap.rd('d%d:%s' % (v.k[1], elem_tag(v.k[2])), v.t)
 
     def norm_index(self, st, i, n, node, what='index'):
         """Python index normalisation with bounds obligation (-n <= i < n)."""
-        if not st.spec:
-            self.oblige(st, "bounds@L%d" % getattr(node, 'lineno', 0), 'bounds',
-                        z3.And(i >= -n, i < n), node)
-            st.assume(z3.And(i >= -n, i < n))
+        if st.spec:
+            return i        # contract clauses index mathematically (no wrap-around, no obligation)
+        self.oblige(st, "bounds@L%d" % getattr(node, 'lineno', 0), 'bounds',
+                    z3.And(i >= -n, i < n), node)
+        st.assume(z3.And(i >= -n, i < n))
         if z3.is_int_value(i) and i.as_long() >= 0:
             return i
         return z3.If(i < 0, i + n, i)
